@@ -49,6 +49,7 @@ type offScen struct {
 	closeInvokedUs int64
 	closeInvokedE  uint64
 	closeReturned bool
+	closeReturnedUs int64
 	closing       bool
 	initial       int64
 	lastMarkE     uint64
@@ -221,6 +222,7 @@ func scenOffsets(r *run) {
 	}
 	_ = om.Close()
 	os.closeReturned = true
+	os.closeReturnedUs = k.nowUs()
 	k.logf("OffsetManager.Close returned")
 	wg.Wait()
 	drainWG.Wait()
@@ -351,6 +353,30 @@ func (os *offScen) judge() {
 	quiet := os.closeReturned && os.cl.lastFaultUs < os.closeInvokedUs && !os.gm.loading && lastTransportErrUs < os.closeInvokedUs
 	// (a refusal by a broker that is no longer the coordinator is not the coordinator refusing: the client is
 	// expected to look the coordinator up again, which costs one of the Retry.Max+1 final attempts)
+	// ... and the client held a connection to the coordinator that was established before Close was invoked and
+	// stayed up until it returned: without one the first final attempt fails inside the client (ErrNotConnected from
+	// the cached, closed Broker) and the coordinator never gets to accept it
+	os.cl.mu.Lock()
+	var cconns []*simConn
+	for _, b := range os.cl.brokers {
+		if b.id == os.gm.coordinator {
+			cconns = append(cconns, b.conns...)
+		}
+	}
+	os.cl.mu.Unlock()
+	live := false
+	for _, c := range cconns {
+		c.mu.Lock()
+		up := c.groupAPI && c.dialUs <= os.closeInvokedUs && (c.clientCloseUs == 0 || c.clientCloseUs >= os.closeReturnedUs) && (c.serverCloseUs == 0 || c.serverCloseUs >= os.closeReturnedUs)
+		c.mu.Unlock()
+		if up {
+			live = true
+		}
+	}
+	if !live && os.closeReturned {
+		quiet = false
+		os.r.probe("final-commit-due-without-a-live-coordinator-connection")
+	}
 	for _, cr := range os.gm.commits {
 		if cr.e > os.closeInvokedE && !cr.accepted {
 			if cr.stale && os.c.Config.OffsetsRetryMax >= 1 {
